@@ -114,7 +114,21 @@ func TestC02(t *testing.T) {
 		insideMinting, crossings := false, 0
 		prevT := lo - secNs
 		prevIdx := -1
+		restartEvery := rapid.IntRange(0, 3).Draw(t, "exportImport") // 0: never; n: before every n-th block
 		for i, T := range ts {
+			if restartEvery > 0 && i > 0 && i%restartEvery == 0 {
+				// the chain is exported and restarted from the export between two blocks: the module's
+				// genesis round trip (JSON) must not change what the schedule emits afterwards
+				gs := cfeminter.ExportGenesis(ctx, w.App.CfeminterKeeper)
+				bz := w.App.AppCodec().MustMarshalJSON(gs)
+				var back mintertypes.GenesisState
+				w.App.AppCodec().MustUnmarshalJSON(bz, &back)
+				if err := back.Validate(); err != nil {
+					t.Fatalf("block %d: exported minter genesis does not validate: %v", i, err)
+				}
+				cfeminter.InitGenesis(ctx, w.App.CfeminterKeeper, w.App.AccountKeeper, back)
+				classes["export_import_between_blocks"] = true
+			}
 			d, ev, pan := mintBlock(w, ctx, cfg.Denom, T)
 			if pan != nil {
 				t.Fatalf("block %d at %d: minter BeginBlocker panicked: %v", i, T, pan)
